@@ -25,6 +25,10 @@ described by a *tree*, the way a grammar of canonical Python programs produces i
   `pyTreeReport` - the expected report, read off the tree WITHOUT token indices.
 * `PyProg.wfAt`, `PyProg.wf` - the (decidable) well-formedness conditions of the canonical
   fragment.
+* `noclLines`, `PyProg.dissolve`, `pyMarkedReport`, `PyProg.nameToks`, `pyTreeReportNamed`,
+  `PyProg.notNestedOn` - comments and suppression markers (C04 / C17): the marked lines of a token
+  list, the forest with the marked `def` nodes dissolved, the expected report with markers.
+* `PyT.nlAt`, `PyT.colAt` - line breaks / blank columns before the `j`-th token.
 
 ## what the tree grammar leaves out (the canonical fragment)
 
@@ -289,5 +293,73 @@ def PTok.plain (t : PTok) : Bool := t.bare.isCode && !t.bare.continuesLine
 /-- **a well-formed file**: the top-level statements have one indentation (Python demands 0;
 nothing depends on it), there is no enclosing function, all tokens are plain code tokens -/
 def PyProg.wf (p : PyProg PTok) : Bool := p.wfAt p.col 0 && p.flat.all PTok.plain
+
+/-! ## comments and suppression markers (C04 / C17 for Python trees)
+
+The tokens of a `PyProg` are code tokens; comments live in the token list `all` of the file, whose
+code tokens (`filter_tokens`) are the rendering of the forest.  A `def` whose NAME token stands on a
+line that carries a marker comment is suppressed: it becomes an ordinary compound statement. -/
+
+/-- the lines of a token list that carry a suppression marker comment (`nocl`, C17) -/
+def noclLines (all : List Tok) : List Nat := (noclTokens all).map (·.line)
+
+/-- **dissolve the functions named on one of the `lines`**: such a function definition
+`pre def name ( … ) post` + suite becomes a compound statement (`block`) with the same head line
+and the same suite (inside which the same is done); every other statement stays what it is.  The
+token sequence does not change (`PyT.flat_pyDissolve`); the function nodes of the result are the
+function nodes named on other lines; a function nested in a dissolved one is then nested in the
+next enclosing function that is left (or in none). -/
+def PyProg.dissolve (lines : List Nat) : PyProg Tok → PyProg Tok
+  | .nil => .nil
+  | .line toks rest => .line toks (dissolve lines rest)
+  | .block head suite rest => .block head (dissolve lines suite) (dissolve lines rest)
+  | .defn pre kw name params post suite rest =>
+    if lines.contains name.line then
+      .block (pre ++ kw :: name :: (params ++ post)) (dissolve lines suite) (dissolve lines rest)
+    else .defn pre kw name params post (dissolve lines suite) (dissolve lines rest)
+
+/-- **the expected report of a Python file with comments and markers**: lay the forest out, dissolve
+the function nodes named on a line of `all` that carries a marker comment, and take the tree
+report: every remaining `def` node, in preorder, with the number of distinct lines of its own code
+tokens.  The code tokens of a suppressed function are own tokens of the nearest enclosing `def`
+that is left. -/
+def pyMarkedReport (t : PyProg PTok) (all : List Tok) : List Measurement :=
+  pyTreeReport (t.located.dissolve (noclLines all))
+
+/-- the name tokens of the function nodes of a forest (at any depth), in preorder -/
+def PyProg.nameToks : PyProg Tok → List Tok
+  | .nil => []
+  | .line _ rest => nameToks rest
+  | .block _ suite rest => nameToks suite ++ nameToks rest
+  | .defn _ _ name _ _ suite rest => name :: (nameToks suite ++ nameToks rest)
+
+/-- the tree report, every entry paired with the NAME TOKEN of its function node -/
+def pyTreeReportNamed : PyProg Tok → List (Tok × Measurement)
+  | .nil => []
+  | .line _ rest => pyTreeReportNamed rest
+  | .block _ suite rest => pyTreeReportNamed suite ++ pyTreeReportNamed rest
+  | .defn _ kw name params post suite rest =>
+    (name, ⟨name.val, kw.line, kw.col, (Tok.endPos_L (suite.flat.getLastD default)).1,
+      (Tok.endPos_L (suite.flat.getLastD default)).2,
+      countDistinct ((pyOwnToks kw name params post suite).map (·.line))⟩)
+    :: (pyTreeReportNamed suite ++ pyTreeReportNamed rest)
+
+/-- no function node named on line `l` is inside another function node (it may contain functions) -/
+def PyProg.notNestedOn (l : Nat) : PyProg Tok → Bool
+  | .nil => true
+  | .line _ rest => notNestedOn l rest
+  | .block _ suite rest => notNestedOn l suite && notNestedOn l rest
+  | .defn _ _ _ _ _ suite rest => !suite.nameToks.any (fun t => t.line == l) && notNestedOn l rest
+
+namespace PyT
+
+/-- the number of line breaks before token `j` of a token sequence without line numbers (0 when
+there is no such token) -/
+def nlAt (ps : List PTok) (j : Nat) : Nat := (ps[j]?.map (·.nl)).getD 0
+
+/-- the number of blank columns before token `j` -/
+def colAt (ps : List PTok) (j : Nat) : Nat := (ps[j]?.map (·.col)).getD 0
+
+end PyT
 
 end CL
